@@ -7,7 +7,7 @@
    Number / marshaler output) is compared with encoding/json by the harness;
    the float32 guard is a translator fact. *)
 From Coq Require Import NArith List Bool Arith.
-From GJ Require Import Spec.Json Gen.VmShape Model.Enc Proofs.EncP Proofs.ParseP Proofs.LeafP.
+From GJ Require Import Spec.Json Gen.VmShape Model.Enc Proofs.EncP Proofs.ParseP Proofs.LeafP Model.Decode Model.EncTyped Proofs.RoundTripP.
 Import ListNotations.
 Open Scope N_scope.
 
@@ -23,6 +23,17 @@ Theorem C03_output_is_one_rfc8259_text : forall v, wfp (strip v) = true ->
   rfc_json (marshal v) = true /\ parse_json (marshal v) = Some (toks v, []).
 Proof. intros v H. split; [exact (marshal_is_rfc_json v H)|exact (parse_marshal v H)]. Qed.
 Print Assumptions C03_output_is_one_rfc8259_text.
+
+(* the hypothesis holds for everything the typed encoder writes (Model/EncTyped.v: bool, integers, strings, pointers,
+   slices, arrays, maps, structs, leaves by AppendInt / AppendUint / AppendString): Marshal's text for such a value is
+   one RFC 8259 text *)
+Theorem C03_typed_output_is_rfc8259 : forall t v, rt t v = true -> rfc_json (marshal_typed t v) = true.
+Proof.
+  intros t v Hr. unfold marshal_typed. apply marshal_is_rfc_json.
+  pose proof (encj_wfp_n (vn v) v (le_n _) t Hr) as Hw.
+  rewrite (wfp_strip_n (size (encj t v)) (encj t v) (le_n _) Hw). exact Hw.
+Qed.
+Print Assumptions C03_typed_output_is_rfc8259.
 
 (* the token sequence of a value whose leaves are scalars is bracket-balanced: every prefix has at least as many
    openers as closers and the whole sequence returns to the starting depth *)
